@@ -42,7 +42,7 @@ def execute(case):
     rng = _r.Random(case.get("seed", 0))
     for o in case["ops"]:
         op, arg = o["op"], o["arg"]
-        ev = {"op": op, "arg": arg, "raised": "", "res": 0, "choice": -1, "results": [], "arity": []}
+        ev = {"op": op, "arg": arg, "raised": "", "res": 0, "choice": -1, "results": [], "arity": [], "pm": []}
         try:
             if op == "add":
                 ds.add(UNIVERSE[arg - 1])
@@ -61,14 +61,25 @@ def execute(case):
                     res = orc.run_seeded(rng.randrange(1 << 30), ds.draw)
                 ev["res"] = ENC.get(res, 0)
             elif op == "drawall":
+                # the whole decision tree of one draw(): exact probability of every result.  How many draws the implementation
+                # uses, and of which arity, is its own business; a tree that does not end (rejection sampling) is not decided
                 orc = Oracle()
+                orc.max_draws = 64
                 try:
-                    for res, trail, _w in orc.enumerate(ds.draw, max_leaves=64):
+                    from fractions import Fraction
+                    tot, last = {}, None
+                    for res, trail, w in orc.enumerate(ds.draw, max_leaves=4 * len(ds) + 16):
                         ev["results"].append(ENC.get(res, 0))
                         ev["arity"].append(trail[0][1] if trail else 0)
+                        tot[ENC.get(res, 0)] = tot.get(ENC.get(res, 0), Fraction(0)) + w
+                        last = trail
+                    if last is not None and Oracle.next_prefix(last) is not None:
+                        raise OracleMismatch("the decision tree of draw() has more than %d leaves" % (4 * len(ds) + 16))
+                    ev["pm"] = [[k, int(v.numerator), int(v.denominator)] for k, v in sorted(tot.items())]
                 except OracleMismatch:
                     ev["op"] = "observe"   # randomness not enumerable: clause not decided
                     ev["undecided"] = True
+                    ev["results"], ev["arity"] = [], []
                 except (IndexError, KeyError):
                     pass                   # drawall on an empty set: no leaves
             elif op == "observe":
